@@ -32,14 +32,49 @@ fn second_table() -> &'static chemical_elements::PeriodicTable {
     })
 }
 
-/// `Sym:iso` (global table) or `Sym:iso~2` (the second table instance)
+/// a third table of *variant* elements, as a caller with enriched material would make them: same symbol, same isotopes,
+/// but another `most_abundant_isotope` (the heaviest other isotope) and the matching `most_abundant_mass`.  Under
+/// `Element::eq` these are OTHER elements than the stock ones, so `C:0~3` and `C:0` are two distinct keys that share
+/// symbol text, isotope number and hash.  Elements with a single isotope have no variant.
+fn third_table() -> &'static chemical_elements::PeriodicTable {
+    use std::sync::OnceLock;
+    static T3: OnceLock<&'static chemical_elements::PeriodicTable> = OnceLock::new();
+    T3.get_or_init(|| {
+        let mut t = chemical_elements::PeriodicTable::new();
+        for e in PERIODIC_TABLE.elements.values() {
+            let other = e.isotopes.keys().copied().filter(|k| *k != e.most_abundant_isotope).max();
+            if let Some(k) = other {
+                let mut v = e.clone();
+                v.most_abundant_isotope = k;
+                v.most_abundant_mass = e.isotopes[&k].mass;
+                t.add(v);
+            }
+        }
+        Box::leak(Box::new(t))
+    })
+}
+
+/// the text the harness prints for a key's element: the symbol, with `^3` when the element is a variant
+pub fn sym_text(e: &chemical_elements::Element) -> String {
+    match PERIODIC_TABLE.get(&e.symbol) {
+        Some(stock) if stock.most_abundant_isotope != e.most_abundant_isotope => format!("{}^3", e.symbol),
+        _ => e.symbol.clone(),
+    }
+}
+
+/// `Sym:iso` (global table), `Sym:iso~2` (the second table instance) or `Sym:iso~3` (the variant element)
 pub fn key(s: &str) -> Option<Spec> {
-    let (s, second) = match s.strip_suffix("~2") {
-        Some(r) => (r, true),
-        None => (s, false),
+    let (s, which) = match (s.strip_suffix("~2"), s.strip_suffix("~3")) {
+        (Some(r), _) => (r, 2),
+        (_, Some(r)) => (r, 3),
+        _ => (s, 1),
     };
     let (sym, iso) = s.split_once(':')?;
-    let e = if second { second_table().get(sym)? } else { PERIODIC_TABLE.get(sym)? };
+    let e = match which {
+        2 => second_table().get(sym)?,
+        3 => third_table().get(sym)?,
+        _ => PERIODIC_TABLE.get(sym)?,
+    };
     Some(ElementSpecification::new(e, iso.parse().ok()?))
 }
 
@@ -83,7 +118,7 @@ fn t_itm<'i, C: ChemicalCompositionLike<'i, 'static>>(c: &mut C, f: fn(i32) -> i
 /// (mass, len, is_empty, sorted entries) as generic code sees them
 fn t_view<'i, C: ChemicalCompositionLike<'i, 'static>>(c: &C) -> (f64, usize, bool, Vec<(String, u16, i32)>) {
     let mut v: Vec<(String, u16, i32)> =
-        ChemicalCompositionLike::iter(c).map(|(k, v)| (k.element.symbol.clone(), k.isotope, *v)).collect();
+        ChemicalCompositionLike::iter(c).map(|(k, v)| (sym_text(k.element), k.isotope, *v)).collect();
     v.sort();
     (ChemicalCompositionLike::mass(c), ChemicalCompositionLike::len(c), ChemicalCompositionLike::is_empty(c), v)
 }
@@ -117,9 +152,9 @@ impl Reg {
     }
     pub fn entries(&self) -> Vec<(String, u16, i32)> {
         let mut v: Vec<(String, u16, i32)> = match self {
-            Reg::Vec(c) => c.iter().map(|(k, v)| (k.element.symbol.clone(), k.isotope, *v)).collect(),
-            Reg::Map(c) => c.iter().map(|(k, v)| (k.element.symbol.clone(), k.isotope, *v)).collect(),
-            Reg::Enum(c) => c.iter().map(|(k, v)| (k.element.symbol.clone(), k.isotope, *v)).collect(),
+            Reg::Vec(c) => c.iter().map(|(k, v)| (sym_text(k.element), k.isotope, *v)).collect(),
+            Reg::Map(c) => c.iter().map(|(k, v)| (sym_text(k.element), k.isotope, *v)).collect(),
+            Reg::Enum(c) => c.iter().map(|(k, v)| (sym_text(k.element), k.isotope, *v)).collect(),
         };
         v.sort();
         v
@@ -144,7 +179,7 @@ impl Reg {
             Reg::Map(c) => ChemicalCompositionRef::Map(c),
             Reg::Enum(c) => ChemicalCompositionRef::from(c),
         };
-        let mut rents: Vec<(String, u16, i32)> = rv.iter().map(|(k, v)| (k.element.symbol.clone(), k.isotope, *v)).collect();
+        let mut rents: Vec<(String, u16, i32)> = rv.iter().map(|(k, v)| (sym_text(k.element), k.isotope, *v)).collect();
         rents.sort();
         let mut same = rv.mass().to_bits() == mass.to_bits() && rv.calc_mass().to_bits() == calc.to_bits()
             && rv.has_mass_cached() == cached && rv.is_empty() == empty && rv.len() == len && rents == ents;
